@@ -278,6 +278,8 @@ def main(tier, seed):
         base.append((s, g, T, params, gen.choose_points(params, r2, k=1), gen.default_goals(T, r2, 2, 4)))
     items = []
     for ft in C.fixed_templates():
+        if ft.get("fixed_text"):
+            continue
         for kind in ["plain", "noisy", "temporaries", "parens", "decimal"]:
             text = gen.render_variant(ft["T"], kind, random.Random(7), None)
             items.append(dict(ft, id=f"{ft['id']}-{kind}", text=text, origin=ft["origin"] + f" spelling={kind}"))
